@@ -10,7 +10,7 @@ if [ "$keep" != keep ]; then
   ( cd "$S/repo" && patch -p1 -s < "$d/$name.patch" ) || { echo "MUTANT $prop/$name: patch does not apply"; exit 3; }
 fi
 out=$(mktemp -d /var/tmp/verif-out.XXXXXX)
-/verif/bin/ovcheck -repo "$S/repo" -verif /verif -out "$out" -tier quick "$prop" > "$out/log" 2>&1
+${OVCHECK:-/verif/bin/ovcheck} -repo "$S/repo" -verif ${OVVERIF:-/verif} -out "$out" -tier quick "$prop" > "$out/log" 2>&1
 rc=$?
 expect=$(cat "$d/$name.expect")
 if [ $rc -eq 1 ] && grep -q "VIOLATION property=$prop" "$out/log" && grep -qF -- "$expect" "$out/log"; then
